@@ -64,7 +64,7 @@ CHECKS = [
      'note': 'Partial: OS file semantics and astropy.io.fits.writeto are parameters of the model (astropyWriteto proved to satisfy the assumed WritetoLaw); trusted extractor tools/c14_extract.py; '
              'Lean kernel + propext/Quot.sound only. F18/F40 fixed in /repo (b692b96, d5e55fe).'},
     {'property_id': 'C02',
-     'technique': 'Lean 4 theorems (loop invariants over List.range folds, skip-box soundness, structural induction over region expressions); correspondence run',
+     'technique': 'Lean 4 theorems (loop invariants over List.range folds, skip-box soundness, structural induction over region expressions); translator (the to_mask glue of the four maskable classes regenerated from source, rfl bridges); correspondence run',
      'text': 'The sub-sampling double loop of all four kernels is proved to count exactly the n x n regularly spaced sample centres passing the kernel test (accumulator closed form), '
              'values are k/n^2 in [0,1]; n=1 samples the pixel centre; the kernels tests equal the shapes membership tests (ellipse: open vs closed, boundary only); the bounding-box skips of the '
              'circle/ellipse/polygon kernels lose nothing (polygon: via the parity theorem); with the to_mask glue every cell (j,i) of a simple-shape mask is the sampled membership of pixel '
@@ -74,7 +74,7 @@ CHECKS = [
      'note': 'Trusted: Lean kernel/Mathlib/3 std axioms; hand model MaskGen.lean tied to the '
              'compiled kernels + to_mask glue by exact comparison of recovered sample counts; boundary sub-samples (exact distance < 1e-9) excepted.'},
     {'property_id': 'C08',
-     'technique': 'Lean 4 theorems by structural induction over region expressions; padding/placement algebra with omega; correspondence run',
+     'technique': 'Lean 4 theorems by structural induction over region expressions; padding/placement algebra with omega; translator (compound contains + annulus structure regenerated from source, rfl bridges); correspondence run',
      'text': 'contains of a compound = operator applied to the operands answers, negated as a whole when its include flag is falsy; |,&,^ are or/and/xor; rotation commutes with the operator and keeps it; '
              'np.pad placement on the union box is proved cell-exact (padCell_spec) and the centre mask of any compound = operator of the operands masks on the union box = indicator of the operator applied to the '
              'operands point sets (combine_ok, center_mask_spec, any depth); annulus = outer minus inner (nesting proved), complement under the shared include flag, area = difference; annulus box = outer box (monotonicity of from_float and of the sqrt-floor). '
